@@ -37,7 +37,15 @@ RULE = (
     "rearranged with public move operations (Graph.insert_after/insert_before/append/extend, Node.append/"
     "prepend with nodes already in the graph, Graph.remove + re-adding; single Node / list / tuple / one-shot "
     "iterator arguments; moves of the first/last node and moves to where the node already is, also as the "
-    "last thing before the sort); their twin is built directly in the reached order. Non-trivial = the sorted scope has >=2 nodes and >=1 "
+    "last thing before the sort); their twin is built directly in the reached order. In 30% of the structures names of "
+    "nodes / node outputs / graph inputs are set to None or '' through the public setters after everything is in its graph "
+    "(one node, some, all). About a fifth of the non-enumerated cases GO ON after the first sort: 1-3 stages of 1-3 edits of the "
+    "live objects (Node.replace_input_with incl. after resize_inputs, Value.replace_all_uses_with, a new GRAPH/GRAPHS attribute "
+    "with new nested graphs, a new node put into a graph, moves inside a graph, name = None/'') - most of them not going "
+    "through the node list of the sorted graph, many closing or opening a cycle - each followed by the same entry point on the "
+    "same objects (also after a ValueError); every such sort is one more evaluation, judged by the same oracle on (structure "
+    "now, orders observed now) and compared with that structure constructed directly in those orders. "
+    "Non-trivial = the sorted scope has >=2 nodes and >=1 "
     "same-graph dependency constraint; distinct = hash of (structure, initial orders, entry point)."
 )
 ASSUMPTIONS = [
@@ -49,11 +57,15 @@ ASSUMPTIONS = [
     "the meaning of the move operations used to reach an initial order (nodes end up, in the given order, directly after/before the anchor or at the end) is the harness's list model; if the real graphs end in another order than the model (or a move raises) that is not C12's business: counted (report_only_moves_reached_other_order / report_only_move_raised), the sort is judged on the order actually observed before it",
     "an order reached by moves and the same order constructed directly are 'the same structure and previous order': their sort results must agree (twin comparison)",
     "reversed(graph) disagreeing with list(graph) after a sort is counted (report_only_reversed_view_differs_after_sort), not judged",
+    "a sort of objects that were sorted (or failed to sort) before and edited since is a sort of 'the structure now in the order now': the statement gives the earlier calls no influence, so it is judged like a first sort and must agree with the direct construction of that structure and order",
+    "names (None, '', or a string) are not part of the dependency relation: a cyclic graph must give ValueError whatever its nodes and values are called; in the all-graphs-already-ordered case 'left exactly as it was' includes the names of nodes and their outputs (a name changed by a sort that did reorder is counted, report_only_names_changed_by_reordering_sort)",
     "for TopologicalSortPass over several units a ValueError from a later unit after an earlier unit was sorted is counted (report_only_pass_sorted_before_raise), not judged; the cyclic units themselves must be unchanged",
 ]
 
 TARGET_W = [("Graph.sort", 45), ("Function.sort", 20), ("TopologicalSortPass", 20), ("Graph.sort(subgraph)", 15)]
 P_HISTORY = 0.4  # share of the evaluations whose initial order is reached through move operations
+P_NAMES = 0.3  # share of the structures in which names of nodes / values are cleared or emptied after construction
+P_STAGES = {"perm": 0.06, "small": 0.3, "medium": 0.22, "large": 0.1}  # share of the cases that go on after the first sort
 HASHSEEDS = ("1", "4242", "31337")
 
 
@@ -80,6 +92,16 @@ def plan(tier: str) -> dict:
                 "history_evaluations": 15000, "history_moves_applied": 100000, "history_twin_built_directly": 15000,
                 "history:last_move_is_noop_of_last_node": 4000, "history:last_move_is_noop_of_first_node": 2500,
                 "history:noop_moves": 50000, "history:readded_after_remove": 5000,
+                # sorts of live objects that were sorted (or failed to sort) before and edited since
+                "stage_sorts": 2500, "stage:twin_compared": 2500, "stage:reordered_by_sort": 300,
+                "stage:cycle_closed_by_edit_after_sort": 400, "stage:cycle_broken_by_edit_after_cycle_error": 20,
+                "stage:resort_needed_after_dependency_edit_only|after-sorted": 450,
+                "stage:resort_needed_after_dependency_edit_only|after-cycle-error": 500,
+                "stage:resort_needed_sorted_graph_list_untouched|after-sorted": 60,
+                "stage_edit:Node.replace_input_with": 1700, "stage_edit:Value.replace_all_uses_with": 500,
+                "stage_edit:Node.attributes[name]=graph(s)": 350, "stage_edit:new-node(other graph)": 150,
+                # cyclic graphs met with nodes whose name is None / ''
+                "unnamed_nodes_in_scope:cycle": 800, "all_nodes_unnamed:cycle": 100,
             },
             "min_nontrivial": 15000,
             "params": {"exhaustive_n": 3, "hashseed_every": 40, "hashseed_shard_mod": 4, "exhaustive_history": 1.0},
@@ -102,6 +124,14 @@ def plan(tier: str) -> dict:
             "history_evaluations": 100000, "history_moves_applied": 500000, "history_twin_built_directly": 100000,
             "history:last_move_is_noop_of_last_node": 8000, "history:last_move_is_noop_of_first_node": 4000,
             "history:noop_moves": 100000, "history:readded_after_remove": 12000,
+            "stage_sorts": 35000, "stage:twin_compared": 35000, "stage:reordered_by_sort": 4000,
+            "stage:cycle_closed_by_edit_after_sort": 6000, "stage:cycle_broken_by_edit_after_cycle_error": 400,
+            "stage:resort_needed_after_dependency_edit_only|after-sorted": 6000,
+            "stage:resort_needed_after_dependency_edit_only|after-cycle-error": 8000,
+            "stage:resort_needed_sorted_graph_list_untouched|after-sorted": 900,
+            "stage_edit:Node.replace_input_with": 25000, "stage_edit:Value.replace_all_uses_with": 8000,
+            "stage_edit:Node.attributes[name]=graph(s)": 5000, "stage_edit:new-node(other graph)": 2500,
+            "unnamed_nodes_in_scope:cycle": 14000, "all_nodes_unnamed:cycle": 2000,
         },
         "min_nontrivial": 400000,
         "params": {"exhaustive_n": 4, "hashseed_every": 12, "hashseed_shard_mod": 1, "exhaustive_history": 0.1},
@@ -128,6 +158,24 @@ def render(case: dict, r: dict | None = None) -> str:
     return "\n".join(parts)
 
 
+NAMES = "|names:"
+
+
+def _names_suffix(case: dict) -> str:
+    """Which kinds of names were cleared / emptied in the judged structure (part of the signature
+    only as long as the shrunk witness still needs them)."""
+    kinds = sorted({{"n": "node", "v": "value", "i": "graph-input"}[w[0]] + "=" + repr(nm)
+                    for u in case["units"] for w, nm in u.get("names", []) if not nm})
+    return NAMES + ",".join(kinds) if kinds else ""
+
+
+def without_names(case: dict) -> dict:
+    out = dict(case, units=[{k: v for k, v in u.items() if k != "names"} for u in case["units"]])
+    if case.get("stages"):
+        out["stages"] = [st for st in ([e for e in stage if e["op"] != "rename"] for stage in case["stages"]) if st]
+    return out
+
+
 def judge(case: dict, r: dict, counts: Counter) -> list[tuple[str, str]]:
     """Findings (signature, message) for one execution record against the statement of C12."""
     target = case["target"]
@@ -137,7 +185,7 @@ def judge(case: dict, r: dict, counts: Counter) -> list[tuple[str, str]]:
     out: list[tuple[str, str]] = []
 
     def add(sig: str, what: str) -> None:
-        out.append((sig, f"{what}\n{render(case, r)}"))
+        out.append((sig + _names_suffix(case), f"{what}\n{render(case, r)}"))
 
     cyclic_units: dict[int, str] = {}
     for u, spec in enumerate(units):
@@ -183,6 +231,9 @@ def judge(case: dict, r: dict, counts: Counter) -> list[tuple[str, str]]:
         if all(was_ok.values()):
             if moved:
                 add(f"stability|{target}", f"every graph was already in a valid order, yet {['u%d.g%d' % m for m in moved]} changed")
+            elif r.get("names_changed"):
+                add(f"stability|{target}|names", "every graph was already in a valid order and was not left exactly as it was: "
+                    "the sort changed the name of a node or value")
             else:
                 counts["already_ordered_left_unchanged"] += 1
         else:
@@ -195,6 +246,8 @@ def judge(case: dict, r: dict, counts: Counter) -> list[tuple[str, str]]:
                 counts["feature:capture_after_cf_reordered"] += 1
         if r["cons_after"] != cons:
             counts["report_only_structure_changed_by_sort"] += 1
+        if r.get("names_changed") and not all(was_ok.values()):
+            counts["report_only_names_changed_by_reordering_sort"] += 1
         if r.get("reversed_differs"):
             counts["report_only_reversed_view_differs_after_sort"] += 1
         if target == "TopologicalSortPass" and r["modified"] is not None:
@@ -231,6 +284,7 @@ def judge(case: dict, r: dict, counts: Counter) -> list[tuple[str, str]]:
 
 
 HIST = "|order-reached-by-moves"
+STAGED = "|re-sort-after:"
 
 
 def has_history(case: dict) -> bool:
@@ -246,12 +300,59 @@ def _history_suffix(case: dict) -> str:
     return HIST + ":" + ",".join(tags)
 
 
-def sig_class(sig: str) -> tuple[str, bool]:
-    return sig.split(HIST)[0], HIST in sig
+def sig_class(sig: str) -> tuple[str, bool, bool]:
+    """(what failed, needs-moves class, needs-earlier-sort class); the names part is not a class of
+    its own: the shrinker drops the names when the failure does not need them."""
+    return sig.split(STAGED)[0].split(HIST)[0].split(NAMES)[0], HIST in sig, STAGED in sig
+
+
+def _strip_names(sig: str, generic: bool = False) -> str:
+    """The signature without its names part (``generic``: with the names part reduced to 'some names')."""
+    if NAMES not in sig:
+        return sig
+    head, tail = sig.split(NAMES, 1)
+    rest = [x for x in (HIST, STAGED) if x in tail]
+    cut = min(tail.index(x) for x in rest) if rest else len(tail)
+    return head + (NAMES + "*" if generic else "") + tail[cut:]
+
+
+def stage_case(case: dict, rec: dict) -> dict:
+    """What a sort of a later stage was given, as a case of its own: the structure after the edits,
+    every graph in the order observed before that sort, the same entry point."""
+    out = {"units": rec["units"], "target": case["target"]}
+    if "sub" in case:
+        out["sub"] = case["sub"]
+    return out
+
+
+def _sorted_graph(case: dict) -> int:
+    return case.get("sub", 0)
+
+
+def _stage_suffix(case: dict, k: int, prev: dict) -> str:
+    tags = sorted({G.edit_tag(e, _sorted_graph(case)) for e in case["stages"][k]})
+    return STAGED + ("sorted" if prev["exc"] is None else "cycle-error") + "+" + ",".join(tags)
+
+
+def render_story(case: dict, r: dict, upto: int) -> str:
+    lines = ["--- this structure and order were reached on live objects:", render(case),
+             f"sort #0: raised {r['exc_text'] or None}; orders {r['pre']} -> {r['post']}"]
+    for k, stage in enumerate(case["stages"][:upto + 1]):
+        lines.append(f"then (stage {k}):")
+        lines.extend("  " + G.describe_edit(e) for e in stage)
+        rec = r["stages"][k]
+        lines.append(f"sort #{k + 1}: raised {rec['exc_text'] or None}; orders {rec['pre']} -> {rec['post']}")
+    return "\n".join(lines)
+
+
+def _needs_work(case: dict, rec: dict) -> bool:
+    """Some graph of the sorted scope is not in a valid order (a cycle included)."""
+    return any(G.broken_pairs(rec["pre"][u][gid], rec["cons"][u][gid]) for u, sc in enumerate(scopes(case)) for gid in sc)
 
 
 def check_case(case: dict, counts: Counter, twin_variant: str = "B", twin_seed: int = 1):
-    """Execute + judge + twin build.  Returns (findings, execution record)."""
+    """Execute + judge + twin build.  Returns (findings, execution record); a finding is
+    (signature, message, stage index or None)."""
     hist = has_history(case)
     r = B.execute(case, "A", 0)
     if "move_failed" in r:
@@ -267,10 +368,10 @@ def check_case(case: dict, counts: Counter, twin_variant: str = "B", twin_seed: 
             other_order = True
     if other_order:
         counts["report_only_moves_reached_other_order"] += 1
-    findings = judge(case, r, counts)
+    findings = [(sig, msg, None) for sig, msg in judge(case, r, counts)]
     # the twin: another construction history of the same structure and initial order; for an order
     # reached by moves it is the direct construction in that order
-    t = B.execute(without_history(case), twin_variant, twin_seed, resort=False)
+    t = B.execute(dict(without_history(case), stages=[]), twin_variant, twin_seed, resort=False)
     if t["cons"] != r["cons"] or (t["pre"] != r["pre"] and not other_order):
         raise RuntimeError("C12 harness: twin build is not isomorphic\n" + render(case))
     if t["pre"] == r["pre"]:
@@ -279,12 +380,60 @@ def check_case(case: dict, counts: Counter, twin_variant: str = "B", twin_seed: 
             counts["history_twin_built_directly"] += 1
         if (t["exc"], t["post"]) != (r["exc"], r["post"]):
             how = "the same initial order constructed directly" if hist else f"construction {twin_variant}"
-            findings.append((f"determinism-twin|{case['target']}",
+            findings.append((f"determinism-twin|{case['target']}" + _names_suffix(case),
                              f"two independently built isomorphic inputs (same structure, same initial order) ended "
-                             f"differently: {r['exc']} {r['post']} vs {t['exc']} {t['post']} ({how})\n{render(case, r)}"))
+                             f"differently: {r['exc']} {r['post']} vs {t['exc']} {t['post']} ({how})\n{render(case, r)}", None))
     if hist and findings:
         suffix = _history_suffix(case)
-        findings = [(sig + suffix, msg) for sig, msg in findings]
+        findings = [(sig + suffix, msg, st) for sig, msg, st in findings]
+    # later stages: the live objects were edited after the sort and the entry point is called again.
+    # Each such sort is judged as what it is - a sort of (structure now, orders now) - and compared
+    # with the same structure and orders constructed directly.
+    prev = r
+    for k, rec in enumerate(r.get("stages", [])):
+        if findings:
+            break
+        if "move_failed" in rec:
+            counts["report_only_stage_move_raised"] += 1
+            break
+        scase = stage_case(case, rec)
+        for u, spec in enumerate(scase["units"]):
+            if G.spec_constraints(spec) != rec["cons"][u]:
+                raise RuntimeError("C12 harness: after the edits of a stage the relation read from the objects differs "
+                                   "from the spec's\n" + render_story(case, r, k))
+        sc: Counter = Counter()
+        found = judge(scase, rec, sc)
+        for key, v in sc.items():
+            counts["stage:" + key] += v
+        counts["stage_sorts"] += 1
+        t = B.execute(scase, twin_variant, twin_seed, resort=False)
+        if t["cons"] != rec["cons"] or t["pre"] != rec["pre"]:
+            raise RuntimeError("C12 harness: direct construction of a stage is not isomorphic\n" + render_story(case, r, k))
+        counts["stage:twin_compared"] += 1
+        if not found and (t["exc"], t["post"]) != (rec["exc"], rec["post"]):
+            found.append((f"determinism-twin|{case['target']}" + _names_suffix(scase),
+                          f"the live objects (sorted, then edited) and the same structure constructed directly in the same "
+                          f"order ended differently: {rec['exc']} {rec['post']} vs {t['exc']} {t['post']}\n{render(scase, rec)}"))
+        # what this stage exercised
+        ops = {e["op"] for e in case["stages"][k]}
+        needs = _needs_work(scase, rec)
+        after = "sorted" if prev["exc"] is None else "cycle-error"
+        counts[f"stage_after:{after}"] += 1
+        if needs and not ops & {"move", "add_node"}:
+            counts[f"stage:resort_needed_after_dependency_edit_only|after-{after}"] += 1
+        elif needs and not any((e["op"] == "move" and e["move"][1] == _sorted_graph(case) and e["u"] == 0) or
+                               (e["op"] == "add_node" and e["g"] == _sorted_graph(case) and e["u"] == 0)
+                               for e in case["stages"][k]):
+            counts[f"stage:resort_needed_sorted_graph_list_untouched|after-{after}"] += 1
+        if prev["exc"] is None and rec["exc"] == "ValueError":
+            counts["stage:cycle_closed_by_edit_after_sort"] += 1
+        if prev["exc"] == "ValueError" and rec["exc"] is None:
+            counts["stage:cycle_broken_by_edit_after_cycle_error"] += 1
+        if found:
+            suffix = _stage_suffix(case, k, prev)
+            story = render_story(case, r, k)
+            findings = [(sig + suffix, msg + "\n" + story, k) for sig, msg in found]
+        prev = rec
     return findings, r
 
 
@@ -349,12 +498,65 @@ def hashseed_findings(batch: list[tuple[dict, dict]], tag: str, counts: Counter)
 # ---------------------------------------------------------------------------------------------
 # shrinking
 # ---------------------------------------------------------------------------------------------
+def _edit_size(e: dict) -> int:
+    if e["op"] == "add_attr":
+        return 8 + sum(12 + sum(10 + 2 * len(ns["inputs"]) for ns in gs["nodes"]) for gs in e["graphs"])
+    if e["op"] == "add_node":
+        return 16 + 2 * len(e["inputs"])
+    if e["op"] == "move":
+        return 6 + len(e["move"][3])
+    return 6
+
+
 def _case_size(case: dict) -> int:
-    return sum(G.spec_size(u) + 3 * len(u["graphs"]) for u in case["units"]) + 5 * len(case["units"])
+    size = sum(G.spec_size(u) + 3 * len(u["graphs"]) + 2 * len(u.get("names", [])) for u in case["units"]) + 5 * len(case["units"])
+    return size + sum(4 + sum(_edit_size(e) for e in stage) for stage in case.get("stages", []))
 
 
 def _reductions(case: dict):
+    stages = case.get("stages")
+    if not stages:
+        yield from _unit_reductions(case)
+        return
     units = case["units"]
+    if len(stages) > 1:
+        yield dict(case, stages=stages[:-1])
+    if has_history(case):
+        yield without_history(case)
+    for k in range(len(stages) - 1):  # without the sort between two stages
+        yield dict(case, stages=stages[:k] + [stages[k] + stages[k + 1]] + stages[k + 2:])
+    for si in reversed(range(len(stages))):
+        for k in reversed(range(len(stages[si]))):
+            new = G.drop_edit(units, stages, si, k)
+            if new is not None:
+                yield dict(case, stages=new)
+    for cand in _unit_reductions(case):
+        if G.stages_valid(cand["units"], cand["stages"]):
+            yield cand
+
+
+def _with_unit(case: dict, u: int, new: dict, maps: dict | None = None):
+    """The case with unit u replaced after a reduction (``maps``: id translation of remove_nodes);
+    None if the edits of later stages cannot follow."""
+    units = case["units"]
+    c = dict(case, units=units[:u] + [new] + units[u + 1:])
+    if case.get("stages") and maps is not None:
+        old = units[u]
+        st = G.remap_stages(c["units"], case["stages"], u, maps, len(old["nodes"]), len(old["graphs"]))
+        if st is None:
+            return None
+        c["stages"] = st
+    return c
+
+
+def _unit_reductions(case: dict):
+    units = case["units"]
+    for u, spec in enumerate(units):
+        if spec.get("names"):
+            yield _with_unit(case, u, {k: v for k, v in spec.items() if k != "names"})
+            if len(spec["names"]) > 1:
+                for k in reversed(range(len(spec["names"]))):
+                    yield _with_unit(case, u, dict(spec, names=spec["names"][:k] + spec["names"][k + 1:]))
     for u, spec in enumerate(units):
         if "history" not in spec:
             continue
@@ -383,14 +585,19 @@ def _reductions(case: dict):
                 yield dict(case, units=units[:u] + [new] + units[u + 1:])
     if len(units) > 1:
         for k in range(len(units) - 1, 0, -1):
+            if any(e["u"] >= k for stage in case.get("stages", []) for e in stage):
+                continue
             yield dict(case, units=units[:k] + units[k + 1:])
     for u, spec in enumerate(units):
         for nid in reversed(range(len(spec["nodes"]))):
-            res = G.remove_nodes(spec, {nid}, case.get("sub") if u == 0 else None)
+            maps: dict = {}
+            res = G.remove_nodes(spec, {nid}, case.get("sub") if u == 0 else None, maps=maps)
             if res is None:
                 continue
             new, sub = res
-            c = dict(case, units=units[:u] + [new] + units[u + 1:])
+            c = _with_unit(case, u, new, maps)
+            if c is None:
+                continue
             if "sub" in case and u == 0:
                 c["sub"] = sub
             yield c
@@ -404,11 +611,14 @@ def _reductions(case: dict):
                 yield dict(case, units=units[:u] + [G.drop_input(spec, did, slot, False, True)] + units[u + 1:])
     for u, spec in enumerate(units):
         for gid in reversed(range(1, len(spec["graphs"]))):
-            res = G.remove_nodes(spec, set(), case.get("sub") if u == 0 else None, {gid})
+            maps = {}
+            res = G.remove_nodes(spec, set(), case.get("sub") if u == 0 else None, {gid}, maps=maps)
             if res is None:
                 continue
             new, sub = res
-            c = dict(case, units=units[:u] + [new] + units[u + 1:])
+            c = _with_unit(case, u, new, maps)
+            if c is None:
+                continue
             if "sub" in case and u == 0:
                 c["sub"] = sub
             yield c
@@ -426,7 +636,7 @@ def shrink(case: dict, signature: str, variant: str, seed: int, max_tests: int =
             found, _ = check_case(c, Counter(), variant, seed)
         except RuntimeError:
             return False
-        return any(sig_class(sig) == sig_class(signature) for sig, _ in found)
+        return any(sig_class(f[0]) == sig_class(signature) for f in found)
 
     tests = 0
     progress = True
@@ -483,15 +693,26 @@ def generate(rng) -> tuple[list[dict], dict]:
         n = rng.randint(21, 40)
     spec, meta = G.gen_structure(rng, n, depth_max, cyclic)
     meta["class"] = cls
+    if rng.random() < P_NAMES:
+        spec["names"] = G.gen_names(rng, spec)
     tgt = _pick_target(rng, spec)
     cases = []
+
+    def staged(case: dict, p: float) -> dict:
+        if rng.random() < p:
+            stages = G.gen_stages(rng, case["units"], case.get("sub"))
+            if stages:
+                case["stages"] = stages
+        return case
+
     if cls == "perm":
         combos = G.all_order_combinations(spec, 120)
         if combos is not None:
             meta["all_permutations"] = True
+            p_stage = P_STAGES[cls] * rng.choice([0, 1, 1, 4])
             for o in combos:
                 unit = G.with_orders(spec, o)
-                cases.append({"units": [G.add_history(rng, unit) if rng.random() < P_HISTORY else unit], **tgt})
+                cases.append(staged({"units": [G.add_history(rng, unit) if rng.random() < P_HISTORY else unit], **tgt}, p_stage))
             return cases, meta
     modes = rng.sample(G.ORDER_MODES, 2)
     if rng.random() < 0.3 and "hidden" not in modes:
@@ -501,40 +722,60 @@ def generate(rng) -> tuple[list[dict], dict]:
         if tgt["target"] == "TopologicalSortPass":
             for _ in range(rng.choice([0, 1, 1, 2])):
                 fs, _m = G.gen_structure(rng, rng.randint(1, 10), rng.choice([0, 1, 2]), rng.random() < 0.2)
+                if rng.random() < P_NAMES:
+                    fs["names"] = G.gen_names(rng, fs)
                 units.append(G.with_orders(fs, G.initial_orders(rng, fs, rng.choice(G.ORDER_MODES))))
         if rng.random() < P_HISTORY:
             units = [G.add_history(rng, un) if (k == 0 or rng.random() < 0.6) else un for k, un in enumerate(units)]
-        cases.append({"units": units, **tgt})
+        cases.append(staged({"units": units, **tgt}, P_STAGES[cls]))
     return cases, meta
 
 
-def _report(ctx, findings, case, variant, seed, do_shrink=True) -> None:
+def _report(ctx, findings, case, variant, seed, r, do_shrink=True) -> None:
     shrunk = ctx.__dict__.setdefault("_c12_shrunk_classes", set())
-    for sig, msg in findings:
+    for sig, msg, stage in findings:
         witness = case
         cls = sig_class(sig)
-        if cls[1]:
+        if stage is not None:
+            # does the failure need the live objects' past at all?  The same structure and orders
+            # constructed directly are a case of their own; if that fails the same way it is reported as that
+            plain_case = stage_case(case, r["stages"][stage])
+            plain, pr = check_case(plain_case, Counter(), variant, seed)
+            same = [f for f in plain if sig_class(f[0])[0] == cls[0]]
+            if same:
+                _report(ctx, same, plain_case, variant, seed, pr, do_shrink)
+                continue
+        elif cls[1]:
             # does the failure need the moves at all?  (then it is reported as what it is)
             plain, _ = check_case(without_history(case), Counter(), variant, seed)
-            if any(s == cls[0] for s, _m in plain):
+            if any(sig_class(f[0])[0] == cls[0] and not sig_class(f[0])[1] for f in plain):
                 continue  # the same case without moves fails too; that evaluation/report is made on its own below
         if do_shrink and cls not in shrunk:
             shrunk.add(cls)
             small = shrink(case, sig, variant, seed)
             refound, _ = check_case(small, Counter(), variant, seed)
-            again = next(((s, m) for s, m in refound if sig_class(s) == cls), None)
+            again = next((f for f in refound if sig_class(f[0]) == cls), None)
             if again is not None:  # (an address-dependent failure may not reproduce: keep the original then)
                 witness = small
                 sig = again[0]
                 msg = f"[shrunk witness, {sum(len(u['nodes']) for u in small['units'])} nodes] " + again[1]
-        elif cls[1]:
-            sig = cls[0] + HIST  # (not shrunk: the moves that matter are not singled out)
+        else:
+            if NAMES in sig:
+                bare, _r = check_case(without_names(case), Counter(), variant, seed)
+                if any(sig_class(f[0]) == cls for f in bare):
+                    sig = _strip_names(sig)  # (fails without the names too)
+                else:
+                    sig = _strip_names(sig, generic=True)  # (not shrunk: which names matter is not singled out)
+            if cls[1] and stage is None:
+                sig = sig.split(HIST)[0] + HIST  # (not shrunk: the moves that matter are not singled out)
+            elif stage is not None:
+                sig = sig.split(STAGED)[0].split(HIST)[0] + STAGED + sig.split(STAGED)[1].split("+")[0]  # (not shrunk: the edits that matter are not singled out)
         ctx.violation(sig, msg, {"case": witness, "twin_variant": variant, "twin_seed": seed})
-    if has_history(case) and findings:
+    if has_history(case) and any(st is None for _s, _m, st in findings):
         plain_case = without_history(case)
-        plain, _ = check_case(plain_case, Counter(), variant, seed)
+        plain, pr = check_case(plain_case, Counter(), variant, seed)
         if plain:
-            _report(ctx, plain, plain_case, variant, seed, do_shrink)
+            _report(ctx, plain, plain_case, variant, seed, pr, do_shrink)
 
 
 def _count_history(ctx, spec: dict, scope: set[int]) -> None:
@@ -561,6 +802,22 @@ def _count_history(ctx, spec: dict, scope: set[int]) -> None:
         if any(gid in scope and len(spec["graphs"][gid]["order"]) >= 2 and {"no-op", end} <= flags[k]
                and moves[k][0] not in ("Graph.append", "Graph.extend") for gid, k in last_of_graph.items()):
             ctx.count(f"history:last_move_is_noop_of_{end}_node")
+
+
+def _count_names(ctx, case: dict, rec: dict, prefix: str) -> None:
+    """How many sorts met nodes without a name (None or "") in the sorted scope, by outcome."""
+    total = blank = 0
+    for u, sc in zip(case["units"], scopes(case)):
+        un = G.unnamed_nodes(u)
+        for gid in sc:
+            total += len(u["graphs"][gid]["order"])
+            blank += sum(1 for x in u["graphs"][gid]["order"] if x in un)
+    if not blank:
+        return
+    outcome = "cycle" if rec["exc"] == "ValueError" else "sorted" if rec["exc"] is None else "other"
+    ctx.count(f"{prefix}unnamed_nodes_in_scope:{outcome}")
+    if blank == total:
+        ctx.count(f"{prefix}all_nodes_unnamed:{outcome}")
 
 
 def _evaluate(ctx, case: dict, rng, hs_batch: list, every: int, meta: dict | None = None) -> None:
@@ -590,10 +847,25 @@ def _evaluate(ctx, case: dict, rng, hs_batch: list, every: int, meta: dict | Non
         if any(G.dangling_capture_nodes(u) for u in case["units"]):
             ctx.count("feature:capturing_node_consumed_only_by_detached")
     ctx.evaluation(key=stable_hash([case["units"], case["target"], case.get("sub")]), nontrivial=n_nodes >= 2 and n_cons >= 1)
+    _count_names(ctx, case, r, "")
+    if case.get("stages"):
+        ctx.count("staged_cases")
+        for k, rec in enumerate(r.get("stages", [])):
+            if "move_failed" in rec:
+                break
+            sc_case = stage_case(case, rec)
+            ssc = scopes(sc_case)
+            for e in case["stages"][k]:
+                ctx.count("stage_edit:" + G.edit_tag(e, _sorted_graph(case)))
+            k_nodes = sum(len(u["graphs"][g]["order"]) for u, s in zip(sc_case["units"], ssc) for g in s)
+            k_cons = sum(len(rec["cons"][u][g]) for u, s in enumerate(ssc) for g in s)
+            ctx.count("nodes_sorted", k_nodes)
+            ctx.evaluation(key=stable_hash([sc_case["units"], case["target"], case.get("sub")]), nontrivial=k_nodes >= 2 and k_cons >= 1)
+            _count_names(ctx, sc_case, rec, "stage:")
     if findings:
-        _report(ctx, findings, case, variant, seed)
-    elif every and ctx.evaluations % every == 0:
-        hs_batch.append((case, {"exc": r["exc"], "post": r["post"]}))
+        _report(ctx, findings, case, variant, seed, r)
+    elif every and ctx.evaluations % every < 1 + len(r.get("stages", [])):
+        hs_batch.append((case, B.outcome(r)))
 
 
 def _flush_hashseed(ctx, hs_batch: list, tag: str) -> None:
@@ -665,8 +937,8 @@ def replay(replay_data, ctx) -> None:
     case = replay_data["case"]
     counts: Counter = Counter()
     findings, r = check_case(case, counts, replay_data.get("twin_variant", "B"), int(replay_data.get("twin_seed", 1)))
-    for sig, msg in findings:
+    for sig, msg, _stage in findings:
         ctx.violation(sig, msg, replay_data)
     if replay_data.get("hashseed"):
-        for sig, msg, c in hashseed_findings([(case, {"exc": r["exc"], "post": r["post"]})], "replay", counts):
+        for sig, msg, c in hashseed_findings([(case, B.outcome(r))], "replay", counts):
             ctx.violation(sig, msg, replay_data)
